@@ -254,6 +254,17 @@ class P(Prop):
         power = {(r[0], r[1], r[3] if len(r) > 3 else 0): r[2] for r in obs["component_power"]}   # (name, node number, electric/mechanical)
         n = case["inp"]["n"]
         for part, (s, det, p) in enumerate(zip(obs["snaps"], obs["details"], obs["parsed"])):
+            # fuel per kind (type, origin, specification): what the message lists against what the result lists
+            want, got = {}, {}
+            for k, m in s["fuel"]:
+                want[k] = want.get(k, 0.0) + m
+            for k, m in p["fuel"]:
+                got[k] = got.get(k, 0.0) + m
+            for k in sorted(set(want) | set(got)):
+                a_, b_ = got.get(k), want.get(k)
+                if a_ is None or b_ is None or abs(a_ - b_) > 1e-9 * max(1.0, abs(b_)):
+                    return (f"exported fuel of kind type/origin/specification {k // 100}/{k // 10 % 10}/{k % 10}: {a_} kg, "
+                            f"the result lists {b_} kg")
             if len(p["rows"]) != len(det):
                 return f"{len(p['rows'])} detail records for {len(det)} detail rows"
             for row, d in zip(p["rows"], det):
